@@ -1,5 +1,145 @@
-(* Props_C10.v — placeholder while the pipeline is being assembled *)
-From Verif Require Import Base C10_Model.
-Theorem c10_placeholder : forall f, f_dash f = Some DDash -> has_col f = false.
-Proof. intros f H. unfold has_col. now rewrite H. Qed.
-Print Assumptions c10_placeholder.
+(* Props_C10.v — property C10: ONLY theorem statements, each closed by [exact] of a lemma from
+   C10_Proofs / C10_Proofs2, followed by Print Assumptions.
+   [wf s]: distinct columns, distinct field names, no field name equal to another field's column
+   (what Go and the naming strategy give; [wfb] decides it, see c10_harness_schemas_wf).
+   [local table items]: "tbl.col" / "tbl.*" items use the statement's own table.
+   sm = select_and_omit s table selects omits req_create req_update is Statement.SelectAndOmitColumns. *)
+From Verif Require Import Base C10_Model C10_Spec C10_Schemas C10_Proofs C10_Proofs2.
+Open Scope Z_scope.
+
+(* the select map, read declaratively: denied permission wins, then Omit, then Select *)
+Theorem c10_select_map_reading : forall s table, wf s -> forall selects omits rc ru f,
+  In f s -> has_col f = true -> local table selects = true -> local table omits = true ->
+  sel_get (fst (select_and_omit s table selects omits rc ru)) (f_db f)
+  = if denied rc ru f then Some false
+    else if listed table omits f then Some false
+    else if listed table selects f then Some true else None.
+Proof. exact sao_get_field. Qed.
+Print Assumptions c10_select_map_reading.
+
+(* no column without update permission is ever in an UPDATE set (struct payload, Save, column updates) *)
+Theorem c10_no_forbidden_update_struct : forall s table selects omits skip is_save p c k,
+  In (c, k) (assign_struct s (select_and_omit s table selects omits false true) skip is_save p) ->
+  exists f, In f s /\ has_col f = true /\ c = f_db f /\ updatable f = true
+            /\ k = (if hooked skip f then KNow else KPay).
+Proof. exact assign_struct_in. Qed.
+Print Assumptions c10_no_forbidden_update_struct.
+
+(* ... nor with a map payload (Update, Updates(map), UpdateColumn(s)): every assignment is an
+   updatable column of the schema, or a key that names no field at all (raw column, outside the domain) *)
+Theorem c10_no_forbidden_update_map : forall s table, wf s -> forall selects omits skip p c k,
+  In (c, k) (assign_map s (select_and_omit s table selects omits false true) skip p) ->
+  (exists f, In f s /\ has_col f = true /\ c = f_db f /\ updatable f = true
+             /\ (k = KNow -> skip = false /\ tracked_update f = true
+                             /\ map_has p (f_name f) = false /\ map_has p (f_db f) = false))
+  \/ (lookup_field s c = None /\ map_has p c = true /\ k = KPay).
+Proof. exact assign_map_in. Qed.
+Print Assumptions c10_no_forbidden_update_map.
+
+(* no column without create permission is in an INSERT (struct, slice) ... *)
+Theorem c10_no_forbidden_create : forall s table, wf s -> forall selects omits anyk f,
+  In f (create_fields s (select_and_omit s table selects omits true false) anyk) ->
+  In f s /\ has_col f = true /\ creatable f = true.
+Proof. exact create_fields_creatable. Qed.
+Print Assumptions c10_no_forbidden_create.
+
+(* ... and OnConflict{UpdateAll} only updates columns with create AND update permission, never the key *)
+Theorem c10_no_forbidden_upsert : forall s table, wf s -> forall selects omits inserted forced p c k,
+  (forall f, In f inserted -> In f s /\ has_col f = true) ->
+  In (c, k) (update_all_set s (select_and_omit s table selects omits true true) inserted forced p) ->
+  exists f, In f inserted /\ c = f_db f /\ creatable f = true /\ updatable f = true /\ f_pk f = false.
+Proof. exact update_all_both. Qed.
+Print Assumptions c10_no_forbidden_upsert.
+
+(* Select/Omit exactness: the SET list of a struct payload (Updates, UpdateColumns, Save) holds
+   column f iff the declarative reading says so: permitted, not omitted, and (listed by Select, or
+   no Select and non-zero, or a tracked update-time field while hooks run) *)
+Theorem c10_select_omit_exact : forall s table, wf s -> forall selects omits skip is_save p f,
+  In f s -> has_col f = true -> local table selects = true -> local table omits = true ->
+  (exists k, In (f_db f, k) (assign_struct s (select_and_omit s table selects omits false true) skip is_save p))
+  <-> (f_pk f && is_save = false /\ may_update table ShStruct (negb skip) selects omits p f = true).
+Proof. exact assign_struct_exact. Qed.
+Print Assumptions c10_select_omit_exact.
+
+(* Updates with a struct writes its non-zero fields (no Select/Omit) *)
+Theorem c10_struct_nonzero : forall s table, wf s -> forall skip p f, In f s -> has_col f = true ->
+  (exists k, In (f_db f, k) (assign_struct s (select_and_omit s table [] [] false true) skip false p))
+  <-> updatable f = true /\ (p_zero p f = false \/ (skip = false /\ tracked_update f = true)).
+Proof. exact struct_nonzero. Qed.
+Print Assumptions c10_struct_nonzero.
+
+(* Updates with a map / Update write every given key, zero values included *)
+Theorem c10_map_all_keys : forall s table, wf s -> forall skip p e f,
+  In e (snd p) -> lookup_field s (fst e) = Some f -> has_col f = true -> updatable f = true ->
+  In (f_db f, KPay) (assign_map s (select_and_omit s table [] [] false true) skip p).
+Proof. exact assign_map_all_keys. Qed.
+Print Assumptions c10_map_all_keys.
+
+(* Save writes all fields (modulo permission tags and Omit; the key identifies the row) *)
+Theorem c10_save_all_fields : forall s table, wf s -> forall omits p f,
+  In f s -> has_col f = true -> local table omits = true ->
+  updatable f = true -> f_pk f = false -> listed table omits f = false ->
+  exists k, In (f_db f, k) (assign_struct s (select_and_omit s table [SStar] omits false true) false true p).
+Proof. exact save_all_fields. Qed.
+Print Assumptions c10_save_all_fields.
+
+(* tracked update-time fields are refreshed by every hook-running update unless omitted ... *)
+Theorem c10_autoupdate_struct : forall s table, wf s -> forall selects omits is_save p f,
+  In f s -> has_col f = true -> local table selects = true -> local table omits = true ->
+  tracked_update f = true -> updatable f = true -> listed table omits f = false -> f_pk f && is_save = false ->
+  In (f_db f, KNow) (assign_struct s (select_and_omit s table selects omits false true) false is_save p).
+Proof. exact autoupdate_struct. Qed.
+Print Assumptions c10_autoupdate_struct.
+
+(* ... for a map payload under the extra hypothesis that the map does not name the field: PARTIAL.
+   Without it the statement is refuted (c10_autoupdate_map_refuted). *)
+Theorem c10_autoupdate_map_partial : forall s table, wf s -> forall selects omits p f,
+  In f s -> has_col f = true -> local table selects = true -> local table omits = true ->
+  tracked_update f = true -> updatable f = true -> listed table omits f = false ->
+  map_has p (f_name f) = false -> map_has p (f_db f) = false ->
+  In (f_db f, KNow) (assign_map s (select_and_omit s table selects omits false true) false p).
+Proof. exact autoupdate_map. Qed.
+Print Assumptions c10_autoupdate_map_partial.
+
+(* ... and never by UpdateColumn / UpdateColumns *)
+Theorem c10_column_update_never_refreshes_struct : forall s table selects omits is_save p c k,
+  In (c, k) (assign_struct s (select_and_omit s table selects omits false true) true is_save p) -> k = KPay.
+Proof. exact column_update_never_now_struct. Qed.
+Print Assumptions c10_column_update_never_refreshes_struct.
+
+Theorem c10_column_update_never_refreshes_map : forall s table, wf s -> forall selects omits p c k,
+  In (c, k) (assign_map s (select_and_omit s table selects omits false true) true p) -> k = KPay.
+Proof. exact column_update_never_now_map. Qed.
+Print Assumptions c10_column_update_never_refreshes_map.
+
+(* whole operations as the checker runs them: an update touches only rows that are stored, match the
+   model key and the chain condition, and only updatable columns of the schema *)
+Theorem c10_update_cells : forall s table, wf s -> forall o selects omits ps stored mk wh x,
+  is_update_op o = true ->
+  In x (out_cells (run_op s table o selects omits ps stored mk wh)) ->
+  (In (c_row x) stored /\ (mk = 0 \/ c_row x = mk) /\ match wh with None => True | Some l => In (c_row x) l end)
+  /\ ((exists f, In f s /\ has_col f = true /\ c_col x = f_db f /\ updatable f = true)
+      \/ lookup_field s (c_col x) = None).
+Proof. exact update_cells_permitted. Qed.
+Print Assumptions c10_update_cells.
+
+Theorem c10_create_cells : forall s table, wf s -> forall o selects omits ps stored mk wh x,
+  (o = OCreate \/ o = OCreateBatch) ->
+  In x (out_cells (run_op s table o selects omits ps stored mk wh)) ->
+  1000 < c_row x /\ exists f, In f s /\ has_col f = true /\ c_col x = f_db f /\ creatable f = true.
+Proof. exact create_cells_permitted. Qed.
+Print Assumptions c10_create_cells.
+
+(* REFUTED for map payloads in general: Select("name").Updates(map{name, updated_at}) on M1 neither
+   writes nor refreshes updated_at (known finding map-tracked-key-unselected, replayed on gorm) *)
+Theorem c10_autoupdate_map_refuted : exists s table selects omits p f,
+  wf s /\ In f s /\ has_col f = true /\ tracked_update f = true /\ updatable f = true
+  /\ listed table omits f = false
+  /\ ~ exists k, In (f_db f, k) (assign_map s (select_and_omit s table selects omits false true) false p).
+Proof. exact autoupdate_map_refuted. Qed.
+Print Assumptions c10_autoupdate_map_refuted.
+
+(* the hypotheses are met by the six model types of the harness *)
+Theorem c10_harness_schemas_wf : Forall wf harness_schemas.
+Proof. exact harness_schemas_wf. Qed.
+Print Assumptions c10_harness_schemas_wf.
